@@ -29,6 +29,8 @@ func runC10(c *Ctx) {
 	R.Rule("C10.R6", "kept declarations stay in parse order: the kept list is only appended to inside the declaration loop and no sorting/reordering call occurs in sanitizeStyles")
 	R.Rule("C10.R7", "no two keys of a rule table share one mutable entry: every map stored as a table entry is created by a make that is stored by exactly that one update and lies inside every loop containing the update")
 	sharedEntryRule(c, "C10.R7", styleTables, "a style rule registered later for one element is applied to the others too")
+	R.Rule("C10.R10", "every matcher registered for the property is consulted (= C07.R4 merges, cited): in sanitizeStyles the style rules of the matching element patterns are merged by m[k] = append(m[k], rules...) — an assignment would let one pattern's matchers replace another's, and a declaration one of them accepts is dropped")
+	mergesAccumulate(c, "C10.R10", "(*Policy).sanitizeStyles")
 	R.Rule("C10.R9", "the default handler is the last resort: css.GetDefaultHandler(property) is stored into a style rule only on paths where the builder's handler is nil, its enum empty and its regexp nil — next to a user-supplied matcher it would take precedence in sanitizeStyles")
 	defaultHandlerLastResort(c, "C10.R9")
 	R.Rule("C10.R8", "one matcher per property: in the style builders a style rule value that is modified inside a loop is created in that loop, so the default handler chosen for one property is never carried over to the next")
@@ -859,14 +861,32 @@ func c10Fallback(c *Ctx) {
 	// GetDefaultHandler: returns are either BaseHandler or a lookup of the handler table with the parameter as key
 	A := model.NewAnalysis(gdh)
 	translateAll(A)
-	n := 0
-	for _, b := range gdh.Blocks {
-		r, ok := b.Instrs[len(b.Instrs)-1].(*ssa.Return)
+	n, nBase := 0, 0
+	isEntry := func(x ssa.Value) bool {
+		if ex, ok := x.(*ssa.Extract); ok && ex.Index == 0 {
+			x = ex.Tuple
+		}
+		lk, ok := x.(*ssa.Lookup)
 		if !ok {
-			continue
+			return false
+		}
+		u, ok := lk.X.(*ssa.UnOp)
+		if !ok {
+			return false
+		}
+		g, ok := u.X.(*ssa.Global)
+		return ok && g.Name() == "defaultStyleHandlers" && lk.Index == ssa.Value(gdh.Params[0])
+	}
+	// judge: the value v, as it leaves block b towards a return
+	var judge func(v ssa.Value, b *ssa.BasicBlock, pos token.Pos, depth int)
+	judge = func(v ssa.Value, b *ssa.BasicBlock, pos token.Pos, depth int) {
+		if phi, ok := v.(*ssa.Phi); ok && depth < 3 {
+			for i, e := range phi.Edges {
+				judge(e, phi.Block().Preds[i], pos, depth+1)
+			}
+			return
 		}
 		n++
-		v := r.Results[0]
 		okR := false
 		why := "returns " + A.Sym.Of(v)
 		if f, ok := v.(*ssa.Function); ok && f == base {
@@ -877,16 +897,48 @@ func c10Fallback(c *Ctx) {
 				okR = true
 			}
 		}
-		if lk, ok := v.(*ssa.Lookup); ok {
-			if u, ok := lk.X.(*ssa.UnOp); ok {
-				if g, ok := u.X.(*ssa.Global); ok && g.Name() == "defaultStyleHandlers" && lk.Index == ssa.Value(gdh.Params[0]) {
-					okR = true
+		if okR {
+			nBase++
+		}
+		if isEntry(v) {
+			// the entry is returned only where it is known to be there: under entry != nil or the comma-ok flag
+			why = "returns the table entry without having tested that there is one: for an unknown property the result is a nil handler, not one that rejects"
+			for d, at := b, b; d != nil && !okR; at, d = d, d.Idom() {
+				_ = at
+				iff, ok := d.Instrs[len(d.Instrs)-1].(*ssa.If)
+				if !ok || len(d.Succs) != 2 || d.Succs[0] == d.Succs[1] || d == b {
+					continue
+				}
+				for k, sblk := range d.Succs {
+					if !(sblk == b || sblk.Dominates(b)) || len(sblk.Preds) != 1 {
+						continue
+					}
+					switch cnd := iff.Cond.(type) {
+					case *ssa.BinOp:
+						x, y := cnd.X, cnd.Y
+						if model.IsNil(x) {
+							x, y = y, x
+						}
+						if isEntry(x) && model.IsNil(y) && (cnd.Op == token.NEQ && k == 0 || cnd.Op == token.EQL && k == 1) {
+							okR = true
+						}
+					case *ssa.Extract:
+						if lk, ok := cnd.Tuple.(*ssa.Lookup); ok && cnd.Index == 1 && lk.CommaOk && isEntry(lk) && k == 0 {
+							okR = true
+						}
+					}
 				}
 			}
 		}
-		R.Check(okR, "C10.R5", fmt.Sprintf("GetDefaultHandler:return#%d", n), "css.GetDefaultHandler: return", c.P.Pos(r.Pos()), "handler table entry for the same key, or BaseHandler", why)
+		R.Check(okR, "C10.R5", fmt.Sprintf("GetDefaultHandler:return#%d", n), "css.GetDefaultHandler: returned value", c.P.Pos(pos), "handler table entry for the same key where one exists, or BaseHandler", why)
+	}
+	for _, b := range gdh.Blocks {
+		if r, ok := b.Instrs[len(b.Instrs)-1].(*ssa.Return); ok {
+			judge(r.Results[0], b, r.Pos(), 0)
+		}
 	}
 	R.Role("C10.R5", "returns of GetDefaultHandler", n, 2)
+	R.Check(nBase > 0, "C10.R5", "GetDefaultHandler:fallback", "css.GetDefaultHandler: fallback", c.P.Pos(gdh.Pos()), "BaseHandler is returned on some path", "no path returns the reject-all handler")
 	// stringInSlice obligation
 	sis := c.P.Func(load.ModPath, "stringInSlice")
 	if sis == nil {
